@@ -860,6 +860,9 @@ func toBinary(val interface{}) (string, error) {
 		r := b64.StdEncoding.EncodeToString(x)
 		return r, nil
 	case string:
+		if _, err := b64.StdEncoding.DecodeString(x); err != nil {
+			return "", fmt.Errorf("cannot coerse '%s' to binary value. %s", x, err)
+		}
 		return x, nil
 	}
 	return "", fmt.Errorf("cannot coerse '%T' to binary value", val)
